@@ -29,7 +29,7 @@ func init() {
 	engine.Register(&engine.Check{
 		ID:         "C09",
 		Technique:  "explicit-state search over socket-set histories (open orders, closes, interface toggles) on the real stack with exhaustive injection of the inbound 4-tuple alphabet after every operation, against a most-specific-match reference; stateless model checking (cooperative scheduler, all schedules) of registration/unregistration racing delivery",
-		Rule:       "sockets from {UDP bound *:P, A1:P, A2:P, A3:P(NIC2), A1:P connected to R:Q, *:P connected to R:Q; the same connected through NIC 1 explicitly, A1:P bound on NIC 1, *:P bound on NIC 2; TCP listener *:P, A1:P}: all sets of size <=3 in all open orders, then each single close; toggles promiscuous / subnet; after each operation inject dst {A1,A2,A3,foreign,unassigned} x dport {P,P'} x src {R,R'} x sport {Q,Q'} x {UDP, TCP SYN, TCP ACK+data} on each NIC; distinct = distinct (history, packet)",
+		Rule:       "sockets from {UDP bound *:P, A1:P, A2:P, A3:P(NIC2), A1:P connected to R:Q, *:P connected to R:Q; the same connected through NIC 1 explicitly, A1:P bound on NIC 1, *:P bound on NIC 2; TCP listener *:P, A1:P}: all sets of size <=3 in all open orders, then each single close; toggles promiscuous / subnet; every connected socket connecting again to the peer it already has; after each operation inject dst {A1,A2,A3,foreign,unassigned} x dport {P,P'} x src {R,R'} x sport {Q,Q'} x {UDP, TCP SYN, TCP ACK+data} on each NIC; distinct = distinct (history, packet)",
 		Assumes:    []string{"sockets are registered with the global demultiplexer (NIC 0) except accepted TCP connections"},
 		Jobs:       c09Jobs,
 		Run:        c09Run,
@@ -398,6 +398,26 @@ func c09History(order []int, toggle string, closeIdx int, pkts []c09Pkt) (*c09Fa
 			return f, probes, true
 		}
 	}
+	if toggle == "reconnect" {
+		// every connected socket connects once more to the peer it already has: the attempt may
+		// be refused (its own 4-tuple is taken - by itself) or succeed, but whatever was
+		// registered before must still be served afterwards
+		n := 0
+		for _, sk := range c.socks {
+			if sk.spec.Conn {
+				sk.ep.Connect(tcpip.FullAddress{NIC: tcpip.NICID(sk.spec.ConnNIC), Addr: c09R, Port: c09Q})
+				n++
+			}
+		}
+		c.r.w.Settle()
+		if n > 0 {
+			hist += "reconnect-same-peer "
+			if f := sweep(); f != nil {
+				return f, probes, true
+			}
+		}
+		toggle = ""
+	}
 	if toggle != "" {
 		c.r.Local = nil // answers may now carry any destination address the NIC accepted as source
 	}
@@ -665,6 +685,15 @@ func c09Run(job, tier string, deadline time.Time) *engine.Result {
 				toggle string
 				close  int
 			}{"subnet", -1})
+		}
+		for _, m := range ord {
+			if c09Menu[m].Conn {
+				variants = append(variants, struct {
+					toggle string
+					close  int
+				}{"reconnect", -1})
+				break
+			}
 		}
 		for _, v := range variants {
 			var f *c09Fail
